@@ -15,6 +15,7 @@ import (
 	"encoding/json"
 	"fmt"
 	"testing"
+	"time"
 
 	"github.com/emmansun/gmsm/sm2"
 	"pgregory.net/rapid"
@@ -33,6 +34,8 @@ var c02Kinds = []string{
 	"expired",         //
 	"notyet",          //
 	"wrongname",       //
+	"wrongname-ip4",   // the client is configured with an IP literal the certificates are not valid for
+	"wrongname-ip6",   //
 	"single",          // only one certificate presented
 	"mixedca",         // signing certificate trusted, encryption certificate from an unknown root
 	"sig-otherkey",    // key-exchange signature made with a key that is not the signing certificate's
@@ -50,7 +53,7 @@ func c02MustComplete(kind string, verify bool) bool {
 	switch kind {
 	case "honest":
 		return true
-	case "untrusted", "expired", "notyet", "wrongname", "mixedca":
+	case "untrusted", "expired", "notyet", "wrongname", "wrongname-ip4", "wrongname-ip6", "mixedca":
 		return !verify // verification off waives chain, dates and name ...
 	}
 	return false // ... but never the two proofs of possession, nor the two-certificate rule
@@ -80,6 +83,10 @@ func c02Run(c c02Case) (sig, msg string) {
 		sigC, encC = p.SrvSigNotYet, p.SrvEncNotYet
 	case "wrongname":
 		sigC, encC = p.SrvSigWrongName, p.SrvEncWrongName
+	case "wrongname-ip4":
+		ucfg.ServerName = "192.0.2.99"
+	case "wrongname-ip6":
+		ucfg.ServerName = "[2001:db8::1]"
 	case "mixedca":
 		encC = p.SrvEncB
 	case "sig-otherkey":
@@ -229,6 +236,38 @@ func c02History(suite uint16, impostorCerts bool) (sig, msg string) {
 	return "", ""
 }
 
+// c02TimeHistory: connections of one verifying client configuration family (same root pool, same
+// server name) to the same genuine server while the configured clock moves in and out of the
+// certificates' validity period; earlier connections stay open. Each connection must succeed
+// exactly when the certificates are valid at the time configured for it.
+func c02TimeHistory(suite uint16, steps []int) (sig, msg string) {
+	p := vfGetPKI()
+	scfg := &Config{Time: vfTime, Certificates: []Certificate{p.SrvSig, p.SrvEnc}, CipherSuites: []uint16{suite}}
+	var keep []*Conn
+	for i, st := range steps {
+		at := vfT0
+		switch st {
+		case 1:
+			at = vfT0.AddDate(6, 0, 0)
+		case 2:
+			at = vfT0.AddDate(-6, 0, 0)
+		}
+		ccfg := &Config{Time: func() time.Time { return at }, RootCAs: p.A.pool, ServerName: vfServerName, CipherSuites: []uint16{suite},
+			Certificates: []Certificate{p.CliSig, p.CliEnc}}
+		r := vfRunPair(ccfg, scfg, vfPairOpt{KeepOpen: true})
+		keep = append(keep, r.Cli, r.Srv)
+		if r.CPanic != "" || r.SPanic != "" {
+			return "panic", r.CPanic + r.SPanic
+		}
+		want := st == 0
+		if (r.CErr == nil) != want {
+			return "validity-at-configured-time", fmt.Sprintf("connection %d of history %v at clock offset kind %d: client completed=%v (%v), certificates valid at that time=%v", i, steps, st, r.CErr == nil, r.CErr, want)
+		}
+	}
+	_ = keep
+	return "", ""
+}
+
 func TestVF_C02(t *testing.T) {
 	rec := vfRec("C02", "C02-impostor", "impostor catalogue (15 kinds incl. honest control) x 4 suites x verification on/off played by a scripted server-role peer, plus the two-connection history 'session created without verification, offered with verification'; parametrised kinds also under rapid; oracle: must-fail / must-complete table from the property text; must-fail => Handshake error, HandshakeComplete false, Read returns no data although the impostor sends some; non-trivial = impostor other than the honest control; distinct = (kind, suite, mode, parameter)")
 	idx := 0
@@ -268,6 +307,33 @@ func TestVF_C02(t *testing.T) {
 				rec.Violation(sig, c, "%s", msg)
 			}
 			rec.Eval(imp, c, "kind:history")
+		}
+	}
+	// clock histories: all sequences of length <= 3 over {valid, expired, not yet valid}
+	for _, suite := range []uint16{ECC_SM4_GCM_SM3, ECDHE_SM4_CBC_SM3} {
+		for n := 1; n <= 3; n++ {
+			tot := 1
+			for i := 0; i < n; i++ {
+				tot *= 3
+			}
+			for code := 0; code < tot; code++ {
+				idx++
+				if !vfMine(idx) {
+					continue
+				}
+				steps := make([]int, n)
+				x := code
+				for i := range steps {
+					steps[i] = x % 3
+					x /= 3
+				}
+				c := map[string]interface{}{"history": "clock", "suite": suite, "steps": steps}
+				sig, msg := c02TimeHistory(suite, steps)
+				if sig != "" {
+					rec.Violation(sig, c, "%s", msg)
+				}
+				rec.Eval(n > 1, c, "kind:clock-history")
+			}
 		}
 	}
 	rec.SetExhaustive(true, fmt.Sprintf("catalogue of %d (kind, suite, mode) cases and 8 histories enumerated completely; parametrised kinds additionally sampled", len(c02Kinds)*8))
